@@ -263,6 +263,94 @@ def read (C : Codec) (F : Flags) (st : Store) (kind : NameKind) (d : Digest) (of
          else { zdata := some (C.enc (c.drop off.toNat)) })
       else { zdata := some (C.enc c) }
 
+/-! ## ByteStream.Read in front of a streaming backend
+
+The backend hands out `NewCASBufferFromChunkReader(digest, medium, BackendProvided)`: the
+storage medium yields `pieces` and then ends with `term` (`none` = `io.EOF`, or an I/O
+error); validation happens while streaming, so a failing medium or an object that does not
+match its digest shows only after part of it has been handed out. -/
+
+structure Source where
+  pieces : List Bytes
+  term : Option Err
+deriving DecidableEq, Repr
+
+/-- what the validator finds when it looks for trailing data after the last expected byte -/
+def drain (code : Nat) : List Bytes → Option Err → Option Err
+  | [], term => term
+  | p :: ps, term => if p.length > 0 then some (eTooBig code) else drain code ps term
+
+/-- `casValidatingChunkReader` over a medium, `acc` already handed out: the chunks it hands
+out and how it ends (`none` = `io.EOF` after a positive verdict).  The chunk that completes
+the object is withheld unless everything checks out. -/
+def vstream (C : Codec) (d : Digest) (code : Nat) : Bytes → List Bytes → Option Err → List Bytes × Option Err
+  | _, [], none => ([], some (eSize code))
+  | _, [], some e => ([], some e)
+  | acc, p :: ps, term =>
+    if acc.length + p.length > d.size then ([], some (eTooBig code))
+    else if acc.length + p.length = d.size then
+      match drain code ps term with
+      | some e => ([], some e)
+      | none => if C.H (acc ++ p) = d.hash then ([p], none) else ([], some (eHash code))
+    else
+      let r := vstream C d code (acc ++ p) ps term
+      (p :: r.1, r.2)
+
+def vstart (C : Codec) (d : Digest) (code : Nat) (src : Source) : List Bytes × Option Err :=
+  if d.size = 0 then
+    match drain code src.pieces src.term with
+    | some e => ([], some e)
+    | none => if C.H [] = d.hash then ([], none) else ([], some (eHash code))
+  else vstream C d code [] src.pieces src.term
+
+/-- `discardFromChunkReader` -/
+def skipBytes : Nat → List Bytes → List Bytes
+  | _, [] => []
+  | n, p :: ps => if n = 0 then p :: ps else if n < p.length then p.drop n :: ps else skipBytes (n - p.length) ps
+
+/-- `normalizingChunkReader`: empty chunks dropped, long ones cut, none merged -/
+def normalize (cs : Nat) (l : List Bytes) : List Bytes := l.flatMap (chunks cs)
+
+/-- send the chunks, then report how the buffer ended -/
+def sendAllThen (cks : List Bytes) (failAt : Nat) (term : Option Err) : ReadOut :=
+  if failAt = 0 ∨ cks.length < failAt then { sent := cks, res := term }
+  else { sent := cks.take (failAt - 1), res := some (eInjected 14) }
+
+/-- `byteStreamServer.Read` when `Get` yields a streaming CAS buffer over `src`
+(or fails outright: `.error`). -/
+def readS (C : Codec) (F : Flags) (src : Except Err Source) (kind : NameKind) (d : Digest) (off : Int)
+    (limit : Int) (cs : Nat) (failAt : Nat) : ReadOut :=
+  if limit ≠ 0 then { res := some eLimit } else
+  match kind with
+  | .bad => { res := some eName }
+  | .unknown => { res := some eCompressor }
+  | .unsupported => { res := some eCompressor }
+  | .identity =>
+    match src with
+    | .error e => { res := some e }
+    | .ok s =>
+      if !offsetOk d.size off then { res := some eOffset }
+      else
+        let v := vstart C d 13 s
+        sendAllThen (normalize cs (skipBytes off.toNat v.1)) failAt v.2
+  | .zstd =>
+    match src with
+    | .error e => { res := some e }
+    | .ok s =>
+      if F.strictR ∧ !offsetOk d.size off then { res := some eOffset }
+      else
+        let v := vstart C d 13 s
+        let cks := normalize cs (skipBytes (if F.strictR then off.toNat else 0) v.1)
+        if cks = [] ∧ v.2 ≠ none then { res := v.2 }
+        else { zdata := some (C.enc cks.flatten), res := v.2 }
+
+/-- the medium of the recording backend: the stored bytes in pieces of `piece` bytes, cut
+short by an I/O error after `k` bytes if `fail = some (k, code)` -/
+def mkSource (piece : Nat) (fail : Option (Nat × Nat)) (data : Bytes) : Source :=
+  match fail with
+  | none => { pieces := chunks piece data, term := none }
+  | some (k, code) => { pieces := chunks piece (data.take k), term := some (eInjected code) }
+
 /-! ## ContentAddressableStorage batch calls -/
 
 structure UpdEntry where
